@@ -189,6 +189,11 @@ func (vc *VC) uf(name string, ret string, args ...Term) Term {
 		as = append(as, a.Sort)
 	}
 	full := name
+	if name == "str_lower" && len(args) == 1 && len(args[0].S) >= 2 && args[0].S[0] == '"' && !strings.Contains(args[0].S, "\\u") {
+		// lower-casing a literal is computed (ASCII letters), so that different literals stay
+		// different under case folding
+		return Term{strings.ToLower(args[0].S), ret}
+	}
 	vc.declareUF(full, as, ret)
 	if len(args) == 0 {
 		return Term{full, ret}
